@@ -141,6 +141,18 @@ def structural_mutants(text: str, version: str):
             out.append(('rename-' + elem,
                         text[:m.start()] + tag.replace('<' + elem, '<' + elem + 'X', 1)
                         + text[m.end():end] + '</%sX>' % elem + text[end + len(elem) + 3:]))
+    # unknown child elements inside text-carrying elements and elsewhere
+    for elem in ['Definition', 'Example', 'ILIDefinition', 'Tag', 'Pronunciation', 'Count']:
+        ms = [m for m in re.finditer(r'<%s(?=[\s>])[^<>]*?>' % elem, text) if live(m)][:1]
+        for m in ms:
+            for child in ('<i>x</i>', '<sub>2</sub>', '<br/>', '<em>y</em>', '<b/>'):
+                out.append(('unknown-child-in-%s:%s' % (elem, child[1:3].strip('>/')),
+                            text[:m.end()] + child + text[m.end():]))
+    for elem in ['Lexicon', 'LexicalEntry', 'Sense', 'Synset']:
+        ms = [m for m in re.finditer(r'<%s(?=[\s>])[^<>/]*?>' % elem, text) if live(m)][:1]
+        for m in ms:
+            out.append(('unknown-child-in-%s' % elem,
+                        text[:m.end()] + '<Note>n</Note>' + text[m.end():]))
     # single-valued children duplicated
     for elem in ['Lemma', 'ILIDefinition', 'Extends', 'ExternalLemma']:
         m = next((x for x in re.finditer(r'[ \t]*<%s(?=[\s/>])[^<>]*?/>\n' % elem, text)
